@@ -280,23 +280,13 @@ def machine(toks, leafvalue, dev=0):
 # ---------------------------------------------------------------------------
 # atoms: structured descriptions, printer, semantics
 # ---------------------------------------------------------------------------
-# the fixed environment every generated document starts with
+# the fixed environment every generated document starts with (realised by PRE_ITEMS in vp/checks/c19.py)
 ENV_INT = {'zzc': 3, 'zzd': -2}                  # counters
 ENV_MAC = {'zzA': '7', 'zzN': '-2', 'zzS': 'ab', 'zzE': ''}    # \def / \newcommand bodies
 ENV_LEN = {'zzL': ('1', 'in')}                   # length registers (assigned with \zzL=1in\relax)
 ENV_BOOL = {'zzbt': True, 'zzbf': False, 'zzbp': False, 'zzbx': True, 'zzby': False}
 DEFINED_CS = ['zzA', 'zzN', 'zzL', 'section', 'relax', 'ifthenelse']
 UNDEFINED_CS = ['zzQ', 'zzQQ']
-
-PREAMBLE = (
-    '\\newcounter{zzc}\\setcounter{zzc}{3}\\newcounter{zzd}\\setcounter{zzd}{-2}'
-    '\\newcounter{zzt}\\newcounter{zze}\\newcounter{zzw}'
-    '\\newlength{\\zzL}\\zzL=1in\\relax '
-    '\\def\\zzA{7}\\newcommand{\\zzN}{-2}\\def\\zzS{ab}\\def\\zzE{}'
-    '\\newboolean{zzbt}\\setboolean{zzbt}{true}\\newboolean{zzbf}\\setboolean{zzbf}{false}'
-    '\\provideboolean{zzbp}\\newboolean{zzbx}\\setboolean{zzbx}{TRUE}'
-    '\\newboolean{zzby}\\setboolean{zzby}{true}\\setboolean{zzby}{False}'
-)
 
 # integer operands: ('lit', n) | ('val', counter) | ('mac', name)
 INT_OPERANDS = [('lit', -12), ('lit', -2), ('lit', 0), ('lit', 1), ('lit', 2), ('lit', 3), ('lit', 7), ('lit', 10),
@@ -413,7 +403,7 @@ def len_admitted(a, r, b):
 # atom descriptions ----------------------------------------------------------
 #   ('int', a, rel, b)   ('len', a, rel, b)   ('equal', s, t)   ('isodd', a)
 #   ('isundef', name)    ('bool', name)
-STRINGS = ['', 'a', 'ab', 'ba', 'a b', '7', '\\zzS', '\\zzA', '\\zzE']
+STRINGS = ['', 'a', 'ab', 'Ab', 'ba', 'a b', '7', '\\zzS', '\\zzA', '\\zzE']
 
 
 def _expand_string(s):
